@@ -3,8 +3,9 @@
 Python half of the vertical: generators for the primitive domain P (lattice + general stream),
 a watchdog-guarded caller for the 34 functions of distance3d.distance, an independent
 definition-level oracle (membership / consistency / d = 0 => coincidence) and the failing-input
-search.  The Lean-model correspondence part lives in `correspondence` (filled by the Lean vertical)
-and uses the reusable API of this file: FUNCS, gen_case, call_impl, oracle, finding_for, check_case.
+search (all 34 functions).  Lean half: the line/plane family (distance/_line.py, distance/_plane.py) is modelled in
+lean/D3/Model/DistLine.lean with theorems in lean/D3/Properties/C10.lean; `correspondence` compares that model
+(Float and exact Rat evaluation through lean/D3/Driver/C10.lean) with the implementation.
 """
 import json
 import math
@@ -1958,8 +1959,27 @@ def replay(ctx, payload):
     fname = payload.get("function")
     args = payload.get("args")
     if fname not in FUNCS or not isinstance(args, dict):
-        print("replay file names no failing input; broken:", json.dumps(payload.get("broken"), default=str)[:1500])
-        return False
+        # kind "no-failing-input-found": the file names what no longer checks (theorem / correspondence); for a
+        # correspondence entry the recorded input is re-run through model and implementation
+        seeds = [b["seed_input"] for b in payload.get("broken", [])
+                 if isinstance(b.get("seed_input"), dict) and b["seed_input"].get("function") in MODELLED]
+        for b in payload.get("broken", [])[:5]:
+            print("broken:", b.get("kind"), b.get("name"), str(b.get("message"))[:300])
+        if not seeds:
+            print("replay file names no input")
+            return False
+        c2 = core.Ctx(ctx.prop, ctx.tier, ctx.seed)
+        run_correspondence(c2, [(sd["function"], "R", sd["args"]) for sd in seeds[:5]], "replay")
+        ok = True
+        for sd in seeds[:5]:
+            res = call_impl(sd["function"], sd["args"])
+            for pb in oracle(sd["function"], sd["args"], res):
+                ok = False
+                print("FAIL", sd["function"], pb["what"], json.dumps(pb["detail"], default=str)[:300])
+        for b in c2.broken:
+            ok = False
+            print("MODEL AND IMPLEMENTATION DISAGREE", b["name"], b["message"][:600])
+        return ok
     res = call_impl(fname, args)
     probs = oracle(fname, args, res)
     print("function:", fname)
